@@ -589,8 +589,7 @@ def run_case(case):
             lit = var is not None and var.get("mismatch") != res["mismatch"]
             viol.append({"key": key + "#rt",
                          "sig": (f"signed-literal-not-parenthesised:roundtrip:{sev}"
-                                 if lit else
-                                 f"roundtrip:{sev}:{par}[{pos}]={was}->{now}"),
+                                 if lit else _mismatch_sig(sev, par, pos, was, now)),
                          "msg": f"tree {key} is written as '{res['text']}' and read "
                                 f"back with a different structure ({sev}): operand "
                                 f"{pos} of {par} was {was}, is now {now}",
@@ -599,6 +598,17 @@ def run_case(case):
     return {"evals": len(items), "nontrivial": nontriv, "states": len(items),
             "transitions": len(items) * 2, "validated": len(items),
             "classes": classes, "viol": viol, "sample": sample}
+
+
+def _mismatch_sig(sev, par, pos, was, now):
+    """Signature of a round-trip mismatch.  One mechanism is named: a unary
+    operator that was the LEFT operand of *, / or ** comes back applied to the
+    whole operation (the writer emitted `-a * b`)."""
+    match = re.match(r"^(MINUS|PLUS)\((MUL|DIV|POW)\)$", now)
+    if match and was.startswith(match.group(2) + "("):
+        return (f"roundtrip:{sev}:unary-{match.group(1)}-left-operand-of-"
+                f"{match.group(2)}-not-parenthesised")
+    return f"roundtrip:{sev}:{par}[{pos}]={was}->{now}"
 
 
 def _has_neglit(tree):
